@@ -98,8 +98,8 @@ func runC18(p *Prog, r *Report) {
 	// is then dropped for some inputs is not "returned" to the user)
 	checkFlagFieldsReadOnly(p, r, "C18.R4", func(fr FlagReg) bool { return true })
 	checkParsingSequential(p, r, "C18.R4")
-	if checkEveryOptionParsed(p, r, "C18.R4", func(string) bool { return true }) < 20 {
-		r.Viol("C18.R4", "every-option-parsed/sites", "-", "the derivations of the parseRawOptions methods are found", "fewer than 20")
+	if checkEveryOptionParsed(p, r, "C18.R4", func(string) bool { return true }) < 12 {
+		r.Viol("C18.R4", "every-option-parsed/sites", "-", "the derivations of the parseRawOptions methods are found", "fewer than 12")
 	}
 	// R8: the exclusion file's lines go through ip.ParseIPNet: it accepts IPv4 hosts and IPv4 CIDR blocks only
 	// and returns exactly the denoted network (C02.R1 typestate re-evaluated; an IPv4-mapped IPv6 block
